@@ -144,7 +144,7 @@ class FuncUnit(Unit):
         import importlib
         mod = importlib.import_module('xfab.' + self.module)
         obj = mod
-        for part in self.name.split('.'):
+        for part in self.contract().name.split('.'):
             obj = getattr(obj, part)
         return obj
 
@@ -152,8 +152,8 @@ class FuncUnit(Unit):
         k = self.contract()
         src = Source()
         eng = E.Engine(src, checks_activated=self.checks_activated)
-        out = {'unit': self.label(), 'functions': [{'module': self.module, 'name': self.name,
-                                                     'sha': src.sha(self.module, self.name)}],
+        out = {'unit': self.label(), 'functions': [{'module': self.module, 'name': k.name,
+                                                     'sha': src.sha(self.module, k.name)}],
                'obligations': [], 'notes': [], 'validation': None, 'native': None}
         t0 = time.time()
         try:
@@ -204,6 +204,10 @@ class FuncUnit(Unit):
             nat['samples'] += 1
             if res[0] == 'return':
                 try:
+                    for r_ in k.raises(*vals):
+                        if bool(T.And(r_[2])):
+                            nat['failures'].append({'clause': 'raises.' + r_[0], 'inputs': _jsonable(vals),
+                                                    'detail': 'returned normally where the contract demands %s' % r_[1].__name__})
                     for nm, cond in k.ensures(*(list(vals) + [res[1]])):
                         for c in T.flatten_conj(cond):
                             if not bool(c):
@@ -215,8 +219,9 @@ class FuncUnit(Unit):
             else:
                 expected = False
                 try:
-                    for nm, exc, cond in k.raises(*vals):
-                        if isinstance(res[1], exc) and bool(cond):
+                    for r_ in k.raises(*vals):
+                        may = r_[3] if len(r_) > 3 else r_[2]
+                        if isinstance(res[1], r_[1]) and bool(T.And(may)):
                             expected = True
                 except Exception:
                     pass
@@ -244,7 +249,10 @@ class FuncUnit(Unit):
                 val['mismatches'].append({'inputs': _jsonable(vals), 'symbolic': p.outcome[0],
                                           'native': res[0], 'path': p.pathid()})
                 continue
-            if res[0] == 'return':
+            if res[0] == 'return' and (res[1] is None or p.outcome[1] is None):
+                if not (res[1] is None and p.outcome[1] is None):
+                    val['mismatches'].append({'inputs': _jsonable(vals), 'detail': 'None vs value'})
+            elif res[0] == 'return':
                 try:
                     sv = [_evalsym(v, env) for v in _flatnum(p.outcome[1])]
                     nv = [float(v) for v in _flatnum(res[1])]
